@@ -1,5 +1,6 @@
 import JunoModel.C14.ProofsMore
 import JunoModel.C14.ProofsBatch
+import JunoModel.C14.ProofsPW
 /-!
 C14 — property theorems (statements only; helper lemmas are in `Proofs*.lean`).
 Every theorem in this module is an obligation listed in evidence/C14.json with its axioms.
@@ -28,8 +29,10 @@ What the statements do NOT cover (assumptions, see checks/c14.json):
 * "every crash image" means every image of the OS model written down in `Model.lean`: a log tail
   is either clean or "garbage" (anything after the last complete record that Pebble's reader
   reports as an invalid tail); non-durable unlinks and watermark renames may be undone in any
-  combination. That a tail cut or damaged at an arbitrary byte offset *is* reported as an
-  invalid tail is Pebble's framing, tested by the harness, not proved.
+  combination. That a tail CUT at an arbitrary byte offset is reported as an invalid tail (or a clean
+  end) and repaired to exactly the complete records is proved on the byte-level model of Pebble's chunk
+  framing (`chunk_cut_anywhere`, round 5/6); that a tail DAMAGED in place (bit flips, zero fill, junk) is
+  reported as invalid rests on the checksum and stays an assumption, tested by the harness.
 * Order: `LoadAllEntries` sorts by height, so "in their original order" can only mean call order
   within a height; that is what `LoadSpec` says.
 * A caller that writes through the pointers of an entry after `SetWALEntry` no longer reaches the
@@ -596,5 +599,175 @@ example : ((Sys.init.run cleanupHistory).step (.flush (.unlink 1))).2 = .errComm
 -- two directory-sync failures in a row: three watermark values may be on disk after a crash
 example : (((Sys.init.run (cleanupHistory ++ [.flush .wmSync, .del 257, .flush .wmSync])).images .idle).map (fun p => p.1.wm)) =
     [some 257, some 256, none] := by decide
+
+/-! ## The physical layer (`Chunk.lean`): Pebble's chunk framing inside the blocks of a log file, the reader,
+juno's tail repair and the offsets of `walWriter` — for EVERY block size `12 ≤ B ≤ 65536`, every 32-bit log
+number and EVERY checksum function (`Cfg.OK`); the driver runs the model with `B = 32768` and Pebble's CRC-32C
+and the harness compares bytes, offsets and repair lengths with the real files. -/
+
+/-- **What the writer put into the file is what the reader finds.** The bytes of a log holding the records
+`ps` (writer still open): a restart reads exactly `ps`, in order, then a clean end of the log; the tail
+repair only shortens the file (block padding behind the last chunk), what it leaves reads as exactly `ps`
+again and is left alone by another restart. -/
+theorem chunk_log_reads_back (c : Chunk.Cfg) (hc : c.OK) (ps : List (List UInt8)) :
+    Chunk.Recovered c (Chunk.frames c ps) ps ∧ (Chunk.scan c (Chunk.frames c ps)).st = .eof :=
+  Chunk.frames_recovered c hc ps
+
+/-- … and of a cleanly closed log (`LogWriter.Close` appended the EOF trailer, which every open strips). -/
+theorem chunk_closed_log_reads_back (c : Chunk.Cfg) (hc : c.OK) (ps : List (List UInt8)) :
+    Chunk.Recovered c (Chunk.frames c ps ++ Chunk.trailer c) ps ∧
+      (Chunk.scan c (Chunk.frames c ps ++ Chunk.trailer c)).st = .eof :=
+  Chunk.closed_recovered c hc ps
+
+/-- **The last log cut at EVERY byte offset past the last synced record** (the quantifier of the property).
+`ps` are the records synced so far, `p` is the batch in flight, of whose bytes (chunks, block padding between
+and behind them — possibly many blocks) only the first `jcut` reached the disk. The restart reads exactly
+`ps` or exactly `ps ++ [p]` — never a part of `p`, never anything else, never an error (`Recovered`: the
+reader ends with `eof` or `invalid`, the repair cuts the file back and leaves a clean log that reads the
+same). Nothing of `p` on disk: exactly `ps`; all of it: exactly `ps ++ [p]`. -/
+theorem chunk_cut_anywhere (c : Chunk.Cfg) (hc : c.OK) (ps : List (List UInt8)) (p : List UInt8) (jcut : Nat)
+    (hj : jcut ≤ (Chunk.emitRecord c (Chunk.emitAll c 0 ps).2 p).1.length) :
+    (Chunk.Recovered c (Chunk.frames c ps ++ (Chunk.emitRecord c (Chunk.emitAll c 0 ps).2 p).1.take jcut) ps ∨
+      Chunk.Recovered c (Chunk.frames c ps ++ (Chunk.emitRecord c (Chunk.emitAll c 0 ps).2 p).1.take jcut) (ps ++ [p])) ∧
+    (jcut = 0 → Chunk.Recovered c (Chunk.frames c ps ++ (Chunk.emitRecord c (Chunk.emitAll c 0 ps).2 p).1.take jcut) ps ∧
+      (Chunk.scan c (Chunk.frames c ps ++ (Chunk.emitRecord c (Chunk.emitAll c 0 ps).2 p).1.take jcut)).st = .eof) ∧
+    (jcut = (Chunk.emitRecord c (Chunk.emitAll c 0 ps).2 p).1.length →
+      Chunk.Recovered c (Chunk.frames c ps ++ (Chunk.emitRecord c (Chunk.emitAll c 0 ps).2 p).1.take jcut) (ps ++ [p]) ∧
+      (Chunk.scan c (Chunk.frames c ps ++ (Chunk.emitRecord c (Chunk.emitAll c 0 ps).2 p).1.take jcut)).st = .eof) :=
+  Chunk.cut_anywhere c hc ps p jcut hj
+
+/-- **A crash inside the rotation or the close: the EOF trailer cut at EVERY byte** (the intermediate state
+"torn EOF trailer" of the file rotation, `trail` in `Sys.bases`). The log holds its records and the first `t ≤ 11`
+bytes of the trailer `LogWriter.Close` writes: a restart reads exactly the records — the reader ends with `eof`
+or `invalid`, never an error, never a record more —, the tail repair cuts the file back, and what it leaves reads
+the same with a clean end. -/
+theorem chunk_trailer_cut_anywhere (c : Chunk.Cfg) (hc : c.OK) (ps : List (List UInt8)) (t : Nat) (ht : t ≤ 11) :
+    Chunk.Recovered c (Chunk.frames c ps ++ (Chunk.trailer c).take t) ps :=
+  Chunk.trailer_cut_recovered c hc ps t ht
+
+/-- **The offsets of `walWriter` keep exactly the acknowledged bytes** ("appendSync remembers the synced
+offset; failed appends truncate back to it"). For every sequence of events on one log — appends that succeed,
+an append torn after ANY number of bytes with any part of the EOF trailer written by the `Close` inside
+`abortUncommitted`, a sync reported as failed with the whole record in the file, a `close` / rotation writing
+all or part of its trailer — the file left behind reads as exactly the records acknowledged before the first
+failure or close (`ackedOf`), with a clean end: a flush that reports failure leaves NO byte of its batch, and
+no acknowledged byte is lost. -/
+theorem walwriter_offsets_keep_acked_bytes (c : Chunk.Cfg) (hc : c.OK) (evs : List Chunk.PEv) :
+    Chunk.Recovered c (Chunk.PW.run c {} evs).file (Chunk.ackedOf evs) ∧
+      (Chunk.scan c (Chunk.PW.run c {} evs).file).st = .eof :=
+  Chunk.PW.run_recovered c hc evs
+
+/-- … byte for byte: the file is the chunks of the acknowledged records, followed at most by one complete
+EOF trailer. -/
+theorem walwriter_file_is_acked_frames (c : Chunk.Cfg) (evs : List Chunk.PEv) :
+    (Chunk.PW.run c {} evs).file = Chunk.frames c (Chunk.ackedOf evs) ∨
+      (Chunk.PW.run c {} evs).file = Chunk.frames c (Chunk.ackedOf evs) ++ Chunk.trailer c := by
+  simpa using Chunk.PW.run_file c evs {} [] (Chunk.PW.good_init c)
+
+/-- The fuel that makes `Reader.nextChunk` structurally recursive never runs out — on ANY bytes, damaged or
+not: the `fuel` error class is an artefact of the totalisation that no input reaches. -/
+theorem chunk_reader_fuel_irrelevant (c : Chunk.Cfg) (hc : c.OK) (wf : Bool) (r : Chunk.RS) :
+    Chunk.nextChunk c wf (2 * r.s.length + 3) r ≠ .error .fuel :=
+  Chunk.nextChunk_fuel_ok c hc wf _ r (by have := Chunk.mu_le r; omega)
+
+/-- **On ANY bytes whatsoever** (cut, flipped, zero-filled, junk — no hypothesis on the file) reading a log ends
+with `io.EOF` or an invalid-record error, never in the `default:` branch of `recoverLatestWALTail` (the model
+has no third class and its fuel never runs out), and the tail repair leaves a prefix of the file. -/
+theorem chunk_scan_total_on_any_bytes (c : Chunk.Cfg) (hc : c.OK) (file : List UInt8) :
+    ((Chunk.scan c file).st = .eof ∨ (Chunk.scan c file).st = .invalid) ∧
+      ∃ n, Chunk.recoverTail c file = file.take n :=
+  ⟨Chunk.scan_st_cases c hc file, Chunk.recoverTail_prefix c file⟩
+
+/-- the configuration the driver runs (and the harness compares with the real files): 32 KiB blocks, Pebble's
+CRC-32C — the theorems of this section apply to it for every log number -/
+example (ln : Nat) : ({ B := 32768, logNum := ln % 4294967296, crc := Chunk.pebbleCrc } : Chunk.Cfg).OK :=
+  ⟨by show 12 ≤ 32768; omega, by show 32768 ≤ 65536; omega, Nat.mod_lt _ (by decide), fun d => by
+    show (_ : UInt32).toNat < Chunk.two32
+    unfold Chunk.two32
+    exact UInt32.toNat_lt _⟩
+
+/-- a small configuration for the examples: 32-byte blocks, log 1, a toy checksum -/
+def tinyCfg : Chunk.Cfg := { B := 32, logNum := 1, crc := fun d => (d.foldl (fun a b => (a * 31 + b.toNat) % 65521) 7) }
+
+theorem tinyCfg_ok : tinyCfg.OK :=
+  ⟨by decide, by decide, by decide, by
+    intro d
+    have : ∀ (l : List UInt8) (a : Nat), a < 65521 → l.foldl (fun a b => (a * 31 + b.toNat) % 65521) a < 65521 := by
+      intro l
+      induction l with
+      | nil => intro a h; exact h
+      | cons x xs ih => intro a _; exact ih _ (Nat.mod_lt _ (by decide))
+    have := this d 7 (by decide)
+    show d.foldl _ 7 < Chunk.two32
+    unfold Chunk.two32; omega⟩
+
+-- two records; the second (30 bytes) does not fit the 32-byte block: three chunks (7 + 21 + 2 bytes)
+example : (Chunk.frames tinyCfg [[1, 2, 3], List.replicate 30 9]).length = 77 := by decide
+example : (Chunk.scan tinyCfg (Chunk.frames tinyCfg [[1, 2, 3], List.replicate 30 9])).recs =
+    [[1, 2, 3], List.replicate 30 9] := by decide
+-- cut inside the second record: the first survives, the reader reports an invalid tail at offset 14 and
+-- the repair cuts the file there
+example : let r := Chunk.scan tinyCfg ((Chunk.frames tinyCfg [[1, 2, 3], List.replicate 30 9]).take 60)
+    (r.recs, r.off, r.st) = ([[1, 2, 3]], 14, .invalid) := by decide
+example : (Chunk.recoverTail tinyCfg ((Chunk.frames tinyCfg [[1, 2, 3], List.replicate 30 9]).take 60)).length = 14 := by
+  decide
+-- a torn append (17 of the record's bytes, 5 of the trailer's) is cut back; a clean close keeps the trailer
+example : (Chunk.PW.run tinyCfg {} [.appendOk [1, 2, 3], .appendTorn (List.replicate 30 9) 17 5, .appendOk [4]]).file =
+    Chunk.frames tinyCfg [[1, 2, 3]] := by decide
+example : (Chunk.PW.run tinyCfg {} [.appendOk [1, 2, 3], .close 11]).file =
+    Chunk.frames tinyCfg [[1, 2, 3]] ++ Chunk.trailer tinyCfg := by decide
+-- junk: the reader stops with `invalid` at offset 0, the repair empties the file
+example : let r := Chunk.scan tinyCfg [1, 2, 3, 4, 5, 6, 7, 8, 9, 10, 11, 12]
+    (r.recs, r.off, r.st, (Chunk.recoverTail tinyCfg [1, 2, 3, 4, 5, 6, 7, 8, 9, 10, 11, 12]).length) = ([], 0, .invalid, 0) := by
+  decide
+-- 8 of the 11 trailer bytes: an invalid tail at offset 14, cut off by the repair
+example : let f := Chunk.frames tinyCfg [[1, 2, 3]] ++ (Chunk.trailer tinyCfg).take 8
+    ((Chunk.scan tinyCfg f).recs, (Chunk.scan tinyCfg f).off, (Chunk.scan tinyCfg f).st, (Chunk.recoverTail tinyCfg f).length) =
+      ([[1, 2, 3]], 14, .invalid, 14) := by decide
+example : Chunk.ackedOf [.appendOk [1, 2, 3], .appendTorn (List.replicate 30 9) 17 5, .appendOk [4]] = [[1, 2, 3]] := by
+  decide
+
+/-- **From the bytes of the FILE to the log model, with the batch in flight cut at any byte** (composition of
+`chunk_cut_anywhere` with `log_bytes_refine_model`). A log written flush by flush (batches `bs`, sequence numbers
+`qs`), the next batch `b` being appended when the machine stops after `jcut` bytes of its chunks: what
+`NewTendermintWALStore` reads from the file and hands to `applyEncodedBatch` is exactly what the reader of the log
+model (`visibleFrom`, on which `replayFile` is built) yields for the abstract log WITHOUT `b` or WITH ALL of `b` —
+the two base states `torn` / `full` of the OS model of `Model.lean`; the tail repair does not change what is
+read and leaves a clean end (so the next restart, and a log that is no longer the latest, read the same). -/
+theorem log_file_cut_refines_model (c : Chunk.Cfg) (hc : c.OK) (name : Codec.Payload → Nat)
+    (bs : List (List Codec.Payload)) (qs : List Nat) (b : List Codec.Payload) (q last jcut : Nat)
+    (hlen : bs.length = qs.length)
+    (hb : ∀ b' ∈ bs ++ [b], (∀ p ∈ b', p.WF) ∧ b'.length < 4294967296) (hq : ∀ q' ∈ qs ++ [q], Codec.W64 q')
+    (hj : jcut ≤ (Chunk.emitRecord c (Chunk.emitAll c 0 (Batch.writtenLog bs qs)).2
+      (Batch.encodeBatch q (b.map Codec.encode))).1.length) :
+    let file := Chunk.frames c (Batch.writtenLog bs qs) ++ (Chunk.emitRecord c (Chunk.emitAll c 0 (Batch.writtenLog bs qs)).2
+      (Batch.encodeBatch q (b.map Codec.encode))).1.take jcut
+    (Chunk.scan c (Chunk.recoverTail c file)).recs = (Chunk.scan c file).recs ∧
+    (Chunk.scan c (Chunk.recoverTail c file)).st = .eof ∧
+    ∃ out, Batch.readLog last (Chunk.scan c file).recs = .ok out ∧
+      (out.map (fun x => (x.2.map (toRec name), x.1)) = visibleFrom last (bs.map (·.map (toRec name))) qs ∨
+       out.map (fun x => (x.2.map (toRec name), x.1)) =
+         visibleFrom last ((bs ++ [b]).map (·.map (toRec name))) (qs ++ [q])) := by
+  intro file
+  rcases (chunk_cut_anywhere c hc (Batch.writtenLog bs qs) (Batch.encodeBatch q (b.map Codec.encode)) jcut hj).1 with h | h
+  · obtain ⟨h1, _, _, h4, h5, _⟩ := h
+    refine ⟨by rw [h4]; exact h1.symm, h5, ?_⟩
+    obtain ⟨out, o1, o2⟩ := log_bytes_refine_model name bs qs last
+      (fun b' hb' => hb b' (List.mem_append_left _ hb')) (fun q' hq' => hq q' (List.mem_append_left _ hq'))
+    exact ⟨out, by show Batch.readLog last (Chunk.scan c file).recs = _; rw [h1]; exact o1, Or.inl o2⟩
+  · obtain ⟨h1, _, _, h4, h5, _⟩ := h
+    refine ⟨by rw [h4]; exact h1.symm, h5, ?_⟩
+    obtain ⟨out, o1, o2⟩ := log_bytes_refine_model name (bs ++ [b]) (qs ++ [q]) last hb hq
+    rw [Batch.writtenLog_snoc bs qs b q hlen] at o1
+    exact ⟨out, by show Batch.readLog last (Chunk.scan c file).recs = _; rw [h1]; exact o1, Or.inr o2⟩
+
+
+-- the hypotheses are satisfiable; and a concrete cut (20 of the 64 bytes of the second batch): the first survives
+example := log_file_cut_refines_model tinyCfg tinyCfg_ok (fun _ => 0) [[.start 3]] [1] [.prune 2] 2 0 20 rfl
+  (by intro b' hb'; simp at hb'; rcases hb' with rfl | rfl <;> simp [Codec.Payload.WF, Codec.W64])
+  (by intro q' hq'; simp at hq'; rcases hq' with rfl | rfl <;> simp [Codec.W64]) (by decide)
+example : (Chunk.scan tinyCfg (Chunk.frames tinyCfg (Batch.writtenLog [[.start 3]] [1]) ++
+    (Chunk.emitRecord tinyCfg (Chunk.emitAll tinyCfg 0 (Batch.writtenLog [[.start 3]] [1])).2
+      (Batch.encodeBatch 2 ([Codec.Payload.prune 2].map Codec.encode))).1.take 20)).recs = Batch.writtenLog [[.start 3]] [1] := by decide
 
 end Juno.C14.Props
